@@ -53,6 +53,12 @@ LockR = RecS('Lock')
 MSET = RecS('MailboxSet', pyclass=(FD, 'MailboxSet'), _set=MapS(NameR, MbxD), _subscribed=MapS(NameR, BOOL),
             _inbox=MbxD, _set_lock=LockR, _content_cache=RefS('Cache'), _thread_cache=RefS('Cache'))
 UPPER = z3.Function('upper', NameR.z3(), NameR.z3())
+ISASCII = z3.Function('isascii', NameR.z3(), z3.BoolSort())
+
+
+def IS_INBOX(t):
+    """RFC 3501 5.1: INBOX in any case -- of US-ASCII letters, as every ABNF string; str.upper() alone also folds U+0131"""
+    return z3.And(ISASCII(t), UPPER(t) == NAME_INBOX.t)
 
 
 def _lock(ex, frame, item, phase):
@@ -70,7 +76,12 @@ def _upper(ex, frame, e):
     return VRef(UPPER(v.t), NameR)
 
 
-_calls = {'*.read_lock': _lock, '*.write_lock': _lock, 'MailboxData': _new_mailbox, 'name.upper': _upper}
+def _isascii(ex, frame, e):
+    v = ex.eval(e.func.value, frame)
+    return VBool(ISASCII(v.t))
+
+
+_calls = {'*.read_lock': _lock, '*.write_lock': _lock, 'MailboxData': _new_mailbox, 'name.upper': _upper, 'name.isascii': _isascii}
 _attr = {('MailboxDataRef', 'mailbox_id'): lambda ex, frame, ref: RefS('Oid').fresh('mid')}
 
 
@@ -110,10 +121,10 @@ delete_mailbox = _mk('delete_mailbox', dict(self=MSET, name=NameR),
                      raises_only=(KeyError,))
 get_mailbox = _mk('get_mailbox', dict(self=MSET, name=NameR),
                   ensures=[('inbox_in_any_case_else_the_stored_mailbox', lambda s: VBool(z3.If(
-                      UPPER(s.name.t) == NAME_INBOX.t, s.result.t == s.self._inbox.t,
+                      IS_INBOX(s.name.t), s.result.t == s.self._inbox.t,
                       z3.And(s.self._set.has(s.name).t, s.result.t == s.self._set[s.name].t))))],
                   raises={KeyError: [('only_for_a_missing_name', lambda s: ~s.self._set.has(s.name) &
-                                      VBool(UPPER(s.name.t) != NAME_INBOX.t)), ('and_nothing_changes', _unchanged)]},
+                                      VBool(z3.Not(IS_INBOX(s.name.t)))), ('and_nothing_changes', _unchanged)]},
                   modifies=[], raises_only=(KeyError,), returns=MbxD)
 set_subscribed = _mk('set_subscribed', dict(self=MSET, name=NameR, subscribed=BOOL),
                      ensures=[('records_exactly_this_subscription', lambda s: s.self._subscribed.has(s.name) &
